@@ -14,7 +14,7 @@ def tasks(tier):
 TRUSTED_BASE = TRUSTED_CORE
 ASSUMPTIONS = SCHED_ASSUMPTIONS + ['set_data delivery (MosaikRemote.set_data -> inputs_from_set_data -> get_input_data) is checked by a bounded stand-in (stated bound in coverage.bounded)']
 NOT_COVERED = ["'delivered exactly once, in A's next step' is decided by the bounded stand-in for set_data / get_input_data only (dict merging of three levels is outside the deductive subset)"]
-LEVEL_TEXT = "Ghost assertion C16 at BEGIN from wait_for_dependencies' postcondition for successors_to_wait_for (A does not begin a later step before B's step has finished); _assert_async_requests refuses exactly the pairs without an async_requests connection (ScenarioError iff); connect_async_requests records the pair; delivery of set_data by a bounded stand-in. End to end (BOUNDED, not a proof): an agent sending set_data over an async_requests connection in real runs (2 scenarios x all configurations / interleavings of the harness) against the sequential reference semantics: delivered exactly once, in the next step."
+LEVEL_TEXT = "Ghost assertion C16 at BEGIN from wait_for_dependencies' postcondition for successors_to_wait_for (A does not begin a later step before B's step has finished); _assert_async_requests refuses exactly the pairs without an async_requests connection (ScenarioError iff); connect_async_requests records the pair; delivery of set_data by a bounded stand-in. End to end (BOUNDED, not a proof): an agent sending set_data over an async_requests connection in real runs (2 scenarios x all configurations / interleavings of the harness) against the sequential reference semantics: delivered exactly once, in the next step. MosaikRemote.get_data (refusal iff some addressed simulator lacks the connection) by a BOUNDED stand-in."
 DESIGN_REF = "DESIGN.md section 8 (C16)"
 LEVEL_NOTE = 'Proved for any number of simulators, any topology, any reply values and every interleaving, under the listed assumptions (evidence: assumptions, coverage.trusted_base). Trusted: pyvc encoder, the rely/guarantee meta-theorem, assumed contracts of asyncio/heapq, the time/delay algebra axioms (C08 provenance), static connection-table facts, z3/cvc5.'
 TECHNIQUE = 'contract-based deductive verification (AST->z3 VCs on the real functions, global invariant, rely/guarantee at awaits); bounded stand-in for set_data delivery'
